@@ -5,6 +5,10 @@ macro_rules! harness {
         #[cfg_attr(kani, kani::proof)]
         #[cfg_attr(kani, kani::unwind($unwind))]
         #[cfg_attr(kani, kani::stub(alloc::fmt::format, $crate::stubs::format_stub))]
-        pub fn $name() $body
+        pub fn $name() {
+            $body;
+            // reaching the end of the body shows the assumptions are jointly satisfiable
+            $crate::witness!(true, "harness body completed");
+        }
     };
 }
